@@ -564,6 +564,21 @@ func Hazards(j *job.Job, s *job.Sink) {
 			cd.Texts = append(cd.Texts, b.String())
 			cd.Names = append(cd.Names, "tw.yang")
 		}
+		if r.Intn(200) == 0 {
+			// long plain chains: one or two thousand identities, each derived from the one
+			// before (nothing wrong with them; the list of the first holds all the others).
+			// Work per identity that grows with the square of what is below it adds up.
+			n := 1200 + r.Intn(1500)
+			var b strings.Builder
+			b.WriteString("module ch { namespace \"urn:ch\"; prefix ch;\n  identity i0;\n")
+			for k := 1; k < n; k++ {
+				fmt.Fprintf(&b, "  identity i%d { base i%d; }\n", k, k-1)
+			}
+			b.WriteString("  leaf l { type identityref { base i0; } }\n}\n")
+			cd.Texts = append(cd.Texts, b.String())
+			cd.Names = append(cd.Names, "ch.yang")
+			s.Count("long_identity_chains", 1)
+		}
 		if r.Intn(4) == 0 {
 			cd.Texts = append(cd.Texts, `module n { namespace "urn:n"; prefix n; typedef t { type string; } grouping g { leaf gl { type t; } } container c { leaf d { type string; } } }`)
 			cd.Names = append(cd.Names, "n.yang")
